@@ -7,6 +7,7 @@ package main
 import (
 	"fmt"
 	"math"
+	"math/big"
 	"math/rand/v2"
 	"net/http"
 	"runtime/debug"
@@ -173,7 +174,10 @@ func drawPoint(c policyCell, rng *rand.Rand) policyPoint {
 		p.RetryAfter = []string{"0", "-5", "", "abc", "1.5", " 5", "Wed, 21 Oct 2015 07:28:00 GMT", "1e3", "0x10"}[rng.IntN(9)]
 	case "429+RA-huge":
 		p.Status = 429
-		p.RetryAfter = []string{"9223372036", "9223372037", "18446744074", "9223372036854775807", "99999999999", strconv.FormatInt(9223372037+rng.Int64N(1<<40), 10)}[rng.IntN(6)]
+		p.RetryAfter = hugeRetryAfter[rng.IntN(len(hugeRetryAfter))]
+		if rng.IntN(6) == 0 {
+			p.RetryAfter = strconv.FormatInt(9223372037+rng.Int64N(1<<40), 10)
+		}
 	case "retryable-status":
 		p.Status = []int{408, 429, 500, 501, 502, 503, 504, 599}[rng.IntN(8)]
 		if rng.IntN(3) == 0 {
@@ -198,13 +202,13 @@ func drawPoint(c policyCell, rng *rand.Rand) policyPoint {
 // expectRetryAfter: the pause a Retry-After of v seconds asks for, brought
 // within the bounds. ok is false when v is not a positive decimal integer.
 func expectRetryAfter(v string, minWait, maxWait time.Duration) (time.Duration, bool) {
-	n, err := strconv.ParseInt(v, 10, 64)
-	if err != nil || n <= 0 {
+	z, ok := retryAfterSeconds(v)
+	if !ok {
 		return 0, false
 	}
 	want := maxWait
-	if n <= int64(math.MaxInt64/time.Second) {
-		want = time.Duration(n) * time.Second
+	if z.IsInt64() && z.Int64() <= int64(math.MaxInt64/time.Second) {
+		want = time.Duration(z.Int64()) * time.Second
 	}
 	if want < minWait {
 		want = minWait
@@ -214,6 +218,38 @@ func expectRetryAfter(v string, minWait, maxWait time.Duration) (time.Duration, 
 	}
 	return want, true
 }
+
+// retryAfterSeconds parses a delay in seconds of any magnitude (1*DIGIT, an
+// optional sign as strconv accepts it); ok is false unless it is positive.
+func retryAfterSeconds(v string) (*big.Int, bool) {
+	if v == "" || strings.ContainsAny(v, "_ ") {
+		return nil, false
+	}
+	z, ok := new(big.Int).SetString(v, 10)
+	if !ok || z.Sign() <= 0 {
+		return nil, false
+	}
+	return z, true
+}
+
+// retryAfterKey names the violation by the magnitude of the value.
+func retryAfterKey(v string) string {
+	z, ok := retryAfterSeconds(v)
+	switch {
+	case !ok:
+		return "retry-after-not-honoured"
+	case !z.IsInt64():
+		return "retry-after-beyond-int64"
+	case z.Int64() > int64(math.MaxInt64/time.Second):
+		return "retry-after-overflow"
+	}
+	return "retry-after-not-honoured"
+}
+
+// hugeRetryAfter: legal 1*DIGIT values around and beyond the int64 range.
+var hugeRetryAfter = []string{"9223372036", "9223372037", "18446744074", "9223372036854775807", "99999999999",
+	"9223372036854775808", "18446744073709551615", "18446744073709551616", "1000000000000000000000000000000",
+	"00009223372036854775808", "000000000000000000000000000000000000000012", "0000000000000000000000000000009223372037"}
 
 // evalPoint runs one parameter point; a panic in the library is a witness.
 func evalPoint(p policyPoint, res *worker.Result) (paused bool) {
@@ -307,11 +343,7 @@ func evalPoint(p policyPoint, res *worker.Result) (paused bool) {
 			if want, ok := expectRetryAfter(p.RetryAfter, p.MinWait, p.MaxWait); ok {
 				res.Count("retry_after_checked", 1)
 				if d != want {
-					key := "retry-after-not-honoured"
-					if n, _ := strconv.ParseInt(p.RetryAfter, 10, 64); n > int64(math.MaxInt64/time.Second) {
-						key = "retry-after-overflow"
-					}
-					res.Violate(key, fmt.Sprintf("429 with Retry-After: %s and bounds [%v, %v]: pause %v, want %v", p.RetryAfter, p.MinWait, p.MaxWait, d, want), w)
+					res.Violate(retryAfterKey(p.RetryAfter), fmt.Sprintf("429 with Retry-After: %s and bounds [%v, %v]: pause %v, want %v", p.RetryAfter, p.MinWait, p.MaxWait, d, want), w)
 				}
 			}
 		}
